@@ -45,6 +45,25 @@ theorem blocked_of_view_up {s : PState ι} {i : ι} {u v : ℕ} (hb : s.blocked 
 section recordVote
 variable {w byz first}
 
+/-- a replica that may still vote in view `u'` has not voted there, so recording the vote retracts nothing -/
+theorem recordVote_extends {s : PState ι} (hI3 : I3 byz s) {i : ι} (hi : i ∉ byz) {u' k' h' : ℕ} {hq' : Option Ref}
+    (hcan : s.canVote i u') :
+    ∀ j u x, s.votedAt j u = some x → (s.recordVote i u' k' h' hq').votedAt j u = some x := by
+  have hnb : ¬ s.blocked i u' := by
+    intro hbl
+    rcases hcan with h | ⟨h, hp⟩
+    · rcases hbl with h' | ⟨h', _⟩ <;> omega
+    · rcases hbl with h' | ⟨_, h'⟩
+      · omega
+      · exact h' hp
+  intro j u x hx
+  simp only [PState.recordVote]
+  split
+  · next hc =>
+    obtain ⟨rfl, rfl⟩ := hc
+    exact absurd (hI3 j hi u x.1 x.2 (by simpa using hx)) hnb
+  · exact hx
+
 theorem recordVote_inv {s : PState ι} (hn : 1 ≤ total w) (hb : wt w byz ≤ faulty w) (hI : Inv w byz first s)
     {i : ι} (hi : i ∉ byz) {u' k' h' : ℕ} {hq' : Option Ref}
     (hcan : s.canVote i u')
